@@ -72,6 +72,42 @@ def _retarget(g):
 from .common import loop_terms as _loop_terms  # noqa: E402
 
 
+def _set_updates_as_loops(fn, set_names):
+    """S.update(<iterable>) on a set S (a statement) adds the elements one by one: rewritten, on a copy of the function, as
+    `for k in <iterable>: S.add(k)` so that the rules about `S.add(key)` see it.  S: the named module-level sets and local aliases of them."""
+    import copy
+    from ..model import Func
+    names = set(set_names)
+    for n in own_nodes(fn.node):
+        if isinstance(n, ast.Assign) and len(n.targets) == 1 and isinstance(n.targets[0], ast.Name) and isinstance(n.value, ast.Name) and n.value.id in names:
+            names.add(n.targets[0].id)
+    hits = [n for n in own_nodes(fn.node) if isinstance(n, ast.Expr) and isinstance(n.value, ast.Call) and isinstance(n.value.func, ast.Attribute) and n.value.func.attr == 'update'
+            and isinstance(n.value.func.value, ast.Name) and n.value.func.value.id in names and len(n.value.args) == 1 and not n.value.keywords]
+    if not hits:
+        return fn
+    node = copy.deepcopy(fn.node)
+    k = 0
+    for holder in ast.walk(node):
+        for field in ('body', 'orelse', 'finalbody'):
+            body = getattr(holder, field, None)
+            if not isinstance(body, list):
+                continue
+            for i, st in enumerate(body):
+                if isinstance(st, ast.Expr) and isinstance(st.value, ast.Call) and isinstance(st.value.func, ast.Attribute) and st.value.func.attr == 'update' and isinstance(st.value.func.value, ast.Name) \
+                        and st.value.func.value.id in names and len(st.value.args) == 1 and not st.value.keywords:
+                    k += 1
+                    var = f'__upd{k}'
+                    loop = ast.For(target=ast.Name(var, ast.Store()), iter=st.value.args[0],
+                                   body=[ast.Expr(ast.Call(func=ast.Attribute(value=ast.Name(st.value.func.value.id, ast.Load()), attr='add', ctx=ast.Load()), args=[ast.Name(var, ast.Load())], keywords=[]))], orelse=[])
+                    ast.copy_location(loop, st)
+                    ast.fix_missing_locations(loop)
+                    for y in ast.walk(loop):
+                        if not hasattr(y, 'lineno'):
+                            y.lineno = st.lineno
+                    body[i] = loop
+    return Func(fn.module, fn.qualname, node, fn.cls, fn.outer)
+
+
 def rare_values(repo, chk):
     """compute_value_counts evaluated as a whole (loops that only apply effects are summarised as `for every element: effect`):
        (a) every (column, value) occurrence of the batch adds 1 to the rare-value store under that pair, unless the pair is retired;
@@ -82,6 +118,7 @@ def rare_values(repo, chk):
     frame, args = fn.params[0], fn.params[1]
     E = lambda src, b=None: expected_term(m, src, b or {})
     STORE, IGN = ('name', 'GLOBAL_RARE_VALUE_STORAGE'), ('name', 'IGNORED_VALUES')
+    fn = _set_updates_as_loops(fn, {'IGNORED_VALUES'})
     paths = run_paths(fn, None, None, max_forks=4)
     if paths is None or not paths:
         chk.unsure('C13.1', 'R5', fn.site(), 'compute_value_counts', 'too many undecidable tests')
@@ -107,6 +144,8 @@ def rare_values(repo, chk):
         if not incs:
             opaque = [e for e in res.effects if 'GLOBAL_RARE_VALUE_STORAGE' in ast.unparse(_subst_env(e, res)) or any(isinstance(x, ast.AugAssign) for x in ast.walk(e))]
             opaque += [u['node'] for u in res.updates if term_of(fn, u['target'], inline=False) == STORE and u['kind'] != 'foreach']
+            # Counter.update(<elements>) counts every element once: a bulk form of the increments, not analysed element by element here
+            opaque += [u['node'] for u in ups if u['op'] == 'call' and u.get('method') in ('update', 'subtract') and _loop_terms(fn, u)[5] == STORE]
             if opaque:
                 chk.unsure('C13.1', 'R5', fn.site(opaque[0]), ast.unparse(opaque[0]).replace('\n', ' ')[:100], 'the loop that counts occurrences is outside the vocabulary of effect loops')
             else:
@@ -600,7 +639,22 @@ def coverage(repo, chk):
                 t = fold_is_sum(t2)
     except Exception:
         pass
-    miss_sets = [f"set({args}.missing_value_symbols.split(','))", f"{args}.missing_value_symbols.split(',')"]
+    # the symbols are a SET: the flag may list a symbol twice (`',{},'` yields '' twice), and a list would count its occurrences twice
+    miss_sets = [f"set({args}.missing_value_symbols.split(','))", f"frozenset({args}.missing_value_symbols.split(','))", f"dict.fromkeys({args}.missing_value_symbols.split(','))",
+                 f"sorted(set({args}.missing_value_symbols.split(',')))", f"list(set({args}.missing_value_symbols.split(',')))"]
+    bare = E(f"{args}.missing_value_symbols.split(',')")
+    dedup = {E(x) for x in miss_sets}
+
+    def _dup_counted(x):
+        """the per-symbol counts are summed over the bare split list"""
+        for y in walk_term(x):
+            if isinstance(y, tuple) and y and y[0] in ('listcomp', 'genexp') and len(y) > 2 and any(g[0] == bare for g in y[2]):
+                return True
+        return False
+    if _dup_counted(t) and not any(d in list(walk_term(t)) for d in dedup):
+        chk.bad('C13.5a', 'R15', fn.site(st), ast.unparse(st)[:140], 'the occurrences of the missing symbols are summed over the raw list `missing_value_symbols.split(\',\')`: a symbol that the flag lists twice '
+                '(a trailing or doubled comma lists the empty string twice) is counted twice, so the coverage is under-reported and can fall below 0')
+        return
     vals = [f'{frame}[{col}].values.tolist()', f'{frame}[{col}].tolist()', f'list({frame}[{col}])']
     forms = []
     for ms in miss_sets:
